@@ -193,8 +193,12 @@ def check_register(rep, db, f, inst, style):
                 dup_checked = manual["end"] is not None and any(
                     e.kind == "ASSUME" and (e.extra or {}).get("abort_check") and q.mentions(e.a, lambda x: isinstance(x, tuple) and x[:1] == ("havoc",) and (fl is None or x[-1] == fl))
                     for e in evs[manual["end"]:pushes[0]])
-                if key_find is None:
-                    key_find = key_ins if False else None
+                if not dup_checked:
+                    # the search may abort from inside (a helper returning the position, tested against end()): then the surviving
+                    # loop path carries `key != element` as an abort check (its `==` sibling never returns)
+                    dup_checked = any(e.kind == "ASSUME" and e.loop > 0 and (e.extra or {}).get("abort_check") and isinstance(e.a, tuple) and e.a[:2] == ("cmp", "!=") and
+                                      any(isinstance(x, tuple) and (x[:1] == ("elem",) or (x[:1] == ("rd",) and isinstance(x[1], tuple) and x[1][:1] == ("elem",))) for x in e.a[2:4])
+                                      for e in evs[finds[0]:pushes[0]])
             key_backend = evs[backend[0]].b[0]
             owner_key = p.state.mem.get(("fld", p.retval, "key")) if isinstance(p.retval, tuple) else None
             owner_tr = p.state.mem.get(("fld", p.retval, "callback_trampoline")) if isinstance(p.retval, tuple) else None
@@ -257,8 +261,23 @@ def check_unregister(rep, db, f, inst, style):
             return
         elif erases:
             style["removal"] = "ordered"
+        manual_ok = False
+        if len(erases) == 1 and not finds:
+            # hand-written search (iterator loop, possibly in a helper): the iterator erased designates an element of callback_keys
+            # that the loop compared equal to the key; not finding it aborts (those paths do not survive)
+            ea = (evs[erases[0]].extra or {}).get("argvals", evs[erases[0]].b)
+            pos = q.iterator_position(p, ea[0]) if ea else None
+            if pos and pos[0] == "elem" and "callback_keys" in fmt(pos[1]):
+                conds = q.conds_before(p, erases[0])
+                eq = any(c[0] == "cmp" and c[1] == "==" and {strip_rd_(c[2]), strip_rd_(c[3])} == {key, pos[1]} for c in conds)
+                rng = [i for i, e in enumerate(evs) if e.kind == "RANGE" and "callback_keys" in fmt(e.a)]
+                if eq and rng and locks and locks[0] < rng[0] < erases[0] and any(u > erases[0] for u in unlocks) and not any(locks[0] < u < erases[0] for u in unlocks):
+                    manual_ok = True
+                    style["removal"] = "ordered"
         if len(backend) != 1 or evs[backend[0]].b[0] != key:
             bad = "backend unregistration is not called exactly once with the given key"
+        elif manual_ok:
+            pass
         elif len(erases) != 1 or not finds:
             bad = "expected one search and one erase of the key"
         elif not locks or not (locks[0] < finds[0] < erases[0]) or not any(u > erases[0] for u in unlocks) or any(locks[0] < u < erases[0] for u in unlocks):
@@ -281,6 +300,10 @@ def check_unregister(rep, db, f, inst, style):
         rep.violation(rule, site(f), "status guard missing (swallow paths %d, acting paths %d)" % (n_swallow, n_do), f["loc"], inst)
         return
     rep.ok(rule, site(f), "status guard; backend + locked checked erase of the same key", inst)
+
+
+def strip_rd_(t):
+    return t[1] if isinstance(t, tuple) and t[:1] == ("rd",) else t
 
 
 def same_obj(p, x, target):
